@@ -61,10 +61,32 @@ def install_fault(fault):
         election.save_results = slow_save
 
 
+def install_mk_failure(spec):
+    """scratch creation fails: the nth call of tempfile.mkdtemp / mkstemp
+    raises OSError(ENOSPC) (disk full, quota, ...)"""
+    import errno
+    import tempfile
+    count = {'n': 0}
+    nth = int(spec.get('nth', 1))
+
+    def failing(orig):
+        def f(*args, **kwargs):
+            count['n'] += 1
+            if count['n'] == nth:
+                raise OSError(errno.ENOSPC, 'No space left on device')
+            return orig(*args, **kwargs)
+        return f
+
+    tempfile.mkdtemp = failing(tempfile.mkdtemp)
+    tempfile.mkstemp = failing(tempfile.mkstemp)
+
+
 def run_stage(job):
     stage = job['stage']
     if job.get('fault'):
         install_fault(job['fault'])
+    if job.get('fail_mkdtemp'):
+        install_mk_failure(job['fail_mkdtemp'])
     if stage == 'precompute':
         # what precompute_summary_stats_from_h5ad does, with copy_data_over
         # passed on (the wrapper itself does not take it)
